@@ -22,6 +22,9 @@ type Tok struct {
 	Col  int
 	// Ctx: Pos.Context is the context object the harness stored in the lexer
 	Ctx bool
+	// Aux: what the generated helper methods of the token package say about
+	// this token (IDValue, Int64Value, UTF8Rune, Pos.String, TokenString, …)
+	Aux string
 }
 
 type TokMap interface {
@@ -91,8 +94,31 @@ type ParseObs struct {
 	LogLenAtScan  []int `json:"log_len_at_scan"`
 }
 
+// SourceObs is what is seen of parser.Parse(lexer.NewLexer(src)): the generated
+// lexer and parser working together on a caller-owned byte slice.
+type SourceObs struct {
+	Supported  bool   `json:"supported"` // the grammar has both a lexer and a parser
+	Panic      string `json:"panic,omitempty"`
+	Guard      bool   `json:"guard,omitempty"`
+	ErrNil     bool   `json:"err_nil"`
+	ErrString  string `json:"err_string,omitempty"`
+	ErrTokType int    `json:"err_tok_type"`
+	ErrTokOff  int    `json:"err_tok_off"`
+	ErrTokLit  string `json:"err_tok_lit,omitempty"`
+	Result     string `json:"result"` // digest of the attribute
+	Scans      int    `json:"scans"`
+	Calls      int    `json:"calls"`
+}
+
+func (o SourceObs) Key() string {
+	return fmt.Sprintf("panic=%v guard=%v errnil=%v errtok=%d@%d %q result=%s scans=%d calls=%d msg=%q", o.Panic != "", o.Guard, o.ErrNil, o.ErrTokType, o.ErrTokOff, o.ErrTokLit, o.Result, o.Scans, o.Calls, o.ErrString)
+}
+
 // Session wraps one generated Parser object; successive Parse calls reuse it.
 type Session interface {
+	// ParseSource runs the generated lexer over src and the parser over the
+	// lexer, and renders the error, if any.
+	ParseSource(src []byte) SourceObs
 	// Parse feeds toks (then end-of-input tokens forever) to the parser.
 	// failAt >= 0 makes the failAt-th action call return an error.
 	Parse(toks []PTok, failAt int, renderErr bool) ParseObs
